@@ -509,7 +509,7 @@ func init() {
 	prof.W["confirm"], prof.W["recover_end"], prof.W["recover_start"], prof.W["admin_startconfirm"], prof.W["otp_add"], prof.W["regen"] = 8, 9, 6, 4, 8, 2
 	register(&Check{
 		ID: "C17", Level: "exploration",
-		Rule:  "mixed histories over all flows and module subsets (the C01 generator) with extra weight on near-valid submissions — a valid token followed by one stray character, a valid token in a URL with a broken percent-escape elsewhere — because those make a library log what it received; a live recovery code or the password typed into the CODE field of the 2FA validate/remove pages. Secret ledger: every password the harness seeded or typed (incl. wrong ones), every OTP and recovery code shown or seeded, every remember cookie value plus its decoded token, nonce and std-base64 form, every mailed token in URL form, std-base64 form and decoded bytes (all >= 8 bytes). After every request: substring search of every changed/created stored field and new token row, and of every log line the request produced (shipped defaults.Logger); every stored password must be bcrypt-shaped; every mail carrying a token — including a string that was mailed before — must be addressed only to the addresses of every account that string was ever mailed for. After every request every value of every server-side session is searched for the ledger's passwords, one-time / recovery codes and confirm / recover tokens too (the 2FA e-mail-verification token is kept there by design and excluded). Every 100th unit runs the shipped SMTPMailer against a relay that refuses one recipient: every token in a message the relay accepted belongs (selector hash in storage) to an envelope recipient of that message. distinct_nontrivial = distinct (action, class, log line shapes, fields changed) signatures.",
+		Rule:  "mixed histories over all flows and module subsets (the C01 generator) with extra weight on near-valid submissions — a valid token followed by one stray character, a valid token in a URL with a broken percent-escape elsewhere — because those make a library log what it received; a live recovery code or the password typed into the CODE field of the 2FA validate/remove pages. Secret ledger: every password the harness seeded or typed (incl. wrong ones), every OTP and recovery code shown or seeded, every remember cookie value plus its decoded token, nonce and std-base64 form, every mailed token in URL form, std-base64 form and decoded bytes (all >= 8 bytes). After every request: substring search of every changed/created stored field and new token row, and of every log line the request produced (shipped defaults.Logger); every stored password must be bcrypt-shaped; every mail carrying a token — including a string that was mailed before — must be addressed only to the addresses of every account that string was ever mailed for. After every request every value of every server-side session is searched for the ledger's passwords, one-time / recovery codes and confirm / recover tokens too (the 2FA e-mail-verification token is kept there by design and excluded). Every 100th unit runs the shipped SMTPMailer against a relay that refuses one recipient: every token in a message the relay accepted belongs (selector hash in storage) to an envelope recipient of that message. The recovery form is also submitted with the mailed link as Referer and ends in an error; every token is searched in its percent-escaped spelling too. distinct_nontrivial = distinct (action, class, log line shapes, fields changed) signatures.",
 		Units: func(t string) int { return tierN(t, 600, 25000) },
 		Run: func(c *RunCtx, unit int) {
 			if unit%100 == 0 {
